@@ -451,13 +451,25 @@ def gen_case(sub, routines, scn_id, connected=False, nmax=12, invalid_frac=0.0):
         W = W.astype(bool)
     elif r < 0.26:
         W = W.astype(np.float32)
+    elif r < 0.31 and meta.get('wkind') == 'int' and not expect_reject:
+        # counts (streamline numbers, co-activation counts) stored in the narrowest integer type that holds them, with
+        # values in the upper half of its range: weights are moved, never computed, so every fact stays exact --
+        # unless the routine does arithmetic on them in the container type
+        dt, lo, hi = rnd.choice(((np.uint8, 128, 255), (np.int8, 64, 127), (np.uint16, 32768, 65535), (np.int16, 16384, 32767)))
+        Wn = np.zeros(W.shape, dtype=dt)
+        for a, b in zip(*np.nonzero(W if directed else np.triu(W, 1))):
+            Wn[a, b] = rnd.randint(lo, hi) if rnd.random() < 0.8 else rnd.randint(1, 9)
+            if not directed:
+                Wn[b, a] = Wn[a, b]
+        W = Wn
+        meta['narrow_counts'] = np.dtype(dt).name
     if routine in ('randmio_und', 'latmio_und') and meta.get('wkind') == 'float' and not expect_reject and rnd.random() < 0.06:
         # symmetric only up to the tolerance of the routine's own np.allclose gate (two estimates of one undirected weight)
         ii, jj = np.nonzero(np.triu(W, 1))
         for x in rnd.sample(range(len(ii)), min(len(ii), rnd.randint(1, 3))):
             W[ii[x], jj[x]] *= (1 + rnd.choice((1e-7, -1e-7, 3e-6)))
         meta['nearsym'] = True
-    if routine in LAT and meta.get('wkind') == 'int' and not expect_reject and rnd.random() < 0.05:
+    if routine in LAT and meta.get('wkind') == 'int' and not expect_reject and 'narrow_counts' not in meta and rnd.random() < 0.05:
         # weights AND distances held in 8-bit integers: the lattice condition is then evaluated in int8 (products up to 135 wrap)
         W = W.astype(np.int8)
         D8 = np.array([[rnd.randint(0, 15) for _ in range(n)] for _ in range(n)])
